@@ -192,7 +192,7 @@ def main(argv=None):
         'repo': common.REPO,
     }
     if hasattr(mod, 'evidence_extra'):
-        coverage.update(mod.evidence_extra(args.tier))
+        coverage.update(mod.evidence_extra(args.tier, counters, viol_counts))
     evidence = {
         'property_id': prop,
         'tier': args.tier,
